@@ -73,7 +73,7 @@ def workflow(name, roles_yaml, defaults=None, vars_=None):
     return y
 
 
-def run_scenarios(ctx, scenarios, procs=None, timeout=1500, rerun_skipped=True):
+def run_scenarios(ctx, scenarios, procs=None, timeout=1500, rerun_skipped=True, _return_skipped=False):
     """Run scenarios on real cores. Scenarios are grouped by core configuration (json of 'core'),
     sharded over parallel processes; scenarios flagged 'isolated' get a process of their own.
     Returns the merged list of trace lines (dicts), in scenario order per shard."""
@@ -126,13 +126,21 @@ def run_scenarios(ctx, scenarios, procs=None, timeout=1500, rerun_skipped=True):
         for lines, skipped, wall in ex.map(run_shard, enumerate(shards)):
             all_lines += lines
             skipped_total += skipped
-    if skipped_total and rerun_skipped:
+    # a call that exceeds its deadline taints its core: the rest of that shard is skipped and run again elsewhere
+    # (the tainting scenario itself is not repeated; its partial trace is kept and judged)
+    rounds = 0
+    while skipped_total and rerun_skipped:
+        rounds += 1
         by_id = {s["id"]: s for s in scenarios}
         again = [by_id[i] for i in skipped_total if i in by_id]
+        if rounds > 8:
+            raise vlib.Inconclusive("scenarios still skipped after %d re-runs (tainted cores): %s" % (rounds, skipped_total[:10]))
         ctx.log("re-running %d scenarios skipped after a tainted core" % len(again))
-        all_lines += run_scenarios(ctx, again, procs=procs, timeout=timeout, rerun_skipped=False)
-    elif skipped_total:
-        raise vlib.Inconclusive("scenarios skipped twice (tainted cores): %s" % skipped_total[:10])
+        more = run_scenarios(ctx, again, procs=procs, timeout=timeout, rerun_skipped=False, _return_skipped=True)
+        all_lines += more[0]
+        skipped_total = more[1]
+    if _return_skipped:
+        return all_lines, skipped_total
     return all_lines
 
 
